@@ -82,8 +82,10 @@ pub fn pattern_vars(p: &TokenStream) -> Vec<String> {
     while i < tts.len() {
         match &tts[i] {
             TokenTree::Punct(pc) if pc.as_char() == '$' => {
-                if let Some(TokenTree::Ident(id)) = tts.get(i + 1) {
-                    v.push(id.to_string());
+                match tts.get(i + 1) {
+                    Some(TokenTree::Ident(id)) => v.push(id.to_string()),
+                    Some(TokenTree::Group(g)) => v.extend(pattern_vars(&g.stream())),
+                    _ => {},
                 }
                 i += 2;
             },
@@ -149,6 +151,7 @@ fn math_impl(
         };
         let r = translate_fn(reg, spec);
         out.errors.extend(r.errors);
+        out.non_impl_intrinsics.extend(r.intrinsics.iter().cloned());
         out.items.push(format!("math:{prefix}.{n}"));
         text.push_str(&r.text);
         text.push('\n');
@@ -215,6 +218,7 @@ pub fn gen_math(
                 };
                 let r = translate_fn(reg, spec);
                 out.errors.extend(r.errors);
+                out.non_impl_intrinsics.extend(r.intrinsics.iter().cloned());
                 out.items.push(format!("mathfn:{n}"));
                 text.push_str(&r.text);
                 text.push('\n');
